@@ -107,3 +107,74 @@ Theorem c17_scan_completes_with_results : forall st pre nj mid l1 l2, idle st ->
                         ++ [ECallbacks (l1 ++ CComplete true :: l2)])))
   = [OCommand OScan; ODone OScan (DoneOk (items_of (concat pre ++ concat mid ++ l1 ++ l2)))].
 Proof. exact scan_completes_with_results. Qed.
+
+(* ---- the tie to the source text --------------------------------------------------------------------
+   gen/GenEventsFn.v is emitted on every run from the Python AST of EZSP.add_callback / remove_callback /
+   handle_callback / stack_status_callback / wait_for_stack_status (the generator behind the context manager:
+   what runs before the yield, after it on a normal exit, on an exception / cancellation, and the future's
+   done-callback), of the callback _list_command registers, and -- as scripts: statements before the scope,
+   the scope, the statements inside it -- of formNetwork, leaveNetwork, _list_command and
+   ControllerApplication._ensure_network_running.  proofs/EventsSrc_proofs.v relates them to the listener and
+   callback bookkeeping of [estep]. *)
+Require Import BV.gen.GenEventsFn BV.proofs.EventsSrc_proofs.
+
+(* form / leave / bring-up wait for the status the model says, inside `with wait_for_stack_status(..)`; a scan
+   registers its callback and runs under try/finally.  [executions] lists every way through the function (each
+   statement may leave it: exception, cancellation at an await, early return); on each of them the operation's
+   command is issued, and the event awaited, only after the registration, and the registration is undone before the
+   function is left; the first execution is the one that completes *)
+Theorem c17_source_listener_scope :
+  op_ok py_formNetwork (ScopeWith (wanted OForm)) "formNetwork" /\
+  op_ok py_leaveNetwork (ScopeWith (wanted OLeave)) "leaveNetwork" /\
+  op_ok py_ensure_network_running (ScopeWith (wanted OBringup)) "initialize_network" /\
+  op_ok py_list_command ScopeCallback "<name>".
+Proof. exact src_listener_scope. Qed.
+
+(* entering the context manager makes the registration [estep] makes on [EStart]: one pending listener for the
+   status, after those already there ([lrefines]: status by status the pending flags agree, in order) *)
+Theorem c17_source_register : forall s f d ml,
+  lrefines d ml -> lrefines (py_wait_enter s f d) (ml ++ [(s, true)]).
+Proof. exact src_register. Qed.
+
+(* leaving it -- normally, by an exception or a cancellation -- and the future's done-callback all remove this
+   listener and nothing else; entering and leaving with nothing in between restores what every status reads,
+   which is what [finish] does to a state that was idle when the operation started *)
+Theorem c17_source_unregister : forall s f d, NoDup (ids (dd_get s d)) ->
+  (py_wait_exit_normal s f d = unregister s f d /\ py_wait_exit_exception s f d = unregister s f d /\
+   py_wait_done_callback s f d = unregister s f d) /\
+  ~ In f (ids (dd_get s (unregister s f d))) /\
+  filter (fun x => negb (fst x =? f)) (dd_get s (unregister s f d)) = filter (fun x => negb (fst x =? f)) (dd_get s d) /\
+  (forall s', s' <> s -> dd_get s' (unregister s f d) = dd_get s' d).
+Proof. exact src_unregister. Qed.
+
+Theorem c17_source_enter_exit : forall s f d, ~ In f (ids (dd_get s d)) ->
+  forall s', dd_get s' (py_wait_exit_exception s f (py_wait_enter s f d)) = dd_get s' d /\
+             dd_get s' (py_wait_exit_normal s f (py_wait_enter s f d)) = dd_get s' d.
+Proof. exact src_enter_exit. Qed.
+
+(* stack_status_callback is [notify]; other frames leave the listeners alone *)
+Theorem c17_source_notify : forall s d ml, lrefines d ml ->
+  lrefines (fst (py_stack_status_callback true s d)) (fst (notify s ml)) /\
+  (forall other, py_stack_status_callback false other d = (d, false)).
+Proof. exact src_notify. Qed.
+
+(* the registry of callbacks a scan uses: add_callback returns an id that was not in use and appends the callback;
+   remove_callback of that id takes out exactly this entry, whatever was registered later; handle_callback calls
+   every registered callback, in order, also after one of them raised *)
+Theorem c17_source_callback_registry : forall (C : Type) h (cbs later : zdict C) cb,
+  (zd_mem (snd (py_add_callback h cbs cb)) cbs = false /\
+   fst (py_add_callback h cbs cb) = cbs ++ [(snd (py_add_callback h cbs cb), cb)]) /\
+  (let '(cbs1, id_) := py_add_callback h cbs cb in py_remove_callback (cbs1 ++ later) id_ = Some (cb, cbs ++ later)) /\
+  (forall (S : Type) (call : C -> S -> S * bool) (s : S),
+     py_handle_callback call cbs s = fold_left (fun s c => fst (call c s)) (map snd cbs) s).
+Proof. exact src_callback_registry. Qed.
+
+(* the callback a scan registers is [handle_cb]: a result frame is appended, the completion frame resolves the
+   future once (a second one raises inside handle_callback and changes nothing) *)
+Theorem c17_source_scan_callback : forall (R : Type) (to_item : R -> Z) (to_ok : R -> bool) st results fut resp,
+  (0 <? scan_cbs st) = true -> scan_rel to_item to_ok results fut st ->
+  (let '(results1, fut1, raised) := py_list_command_cb true false resp results fut in
+   scan_rel to_item to_ok results1 fut1 (handle_cb st (CItem (to_item resp))) /\ raised = false) /\
+  (let '(results1, fut1, raised) := py_list_command_cb false true resp results fut in
+   scan_rel to_item to_ok results1 fut1 (handle_cb st (CComplete (to_ok resp))) /\ raised = event_seen st).
+Proof. exact src_scan_callback. Qed.
